@@ -132,7 +132,7 @@ def vid(o):
     return getattr(o, "_verif_id", None)
 
 
-def derive(o):
+def derive(o, salt=0):
     """the same object as `o`, not built afresh but DERIVED by the library: interpolated half way between two copies of it displaced by -d / +d that
     have already been looked at through every geometric getter (whatever those cache travels along with the deepcopy inside
     interpolate_dynamic_object).  Lattice positions are reproduced exactly."""
@@ -140,7 +140,8 @@ def derive(o):
 
     from perception_eval.common.geometry import interpolate_dynamic_object
 
-    d = np.array([4.0, -2.0, 0.0])
+    k = (getattr(o, "_verif_id", 0) or 0) + 3 * salt      # every object comes from its own pair of displaced copies
+    d = np.array([4.0 + 1.5 * k, -2.0 - 0.5 * k, 0.0])
     lo, hi = deepcopy(o), deepcopy(o)
     lo.state.position = tuple(float(v) for v in (np.array(o.state.position) - d))
     hi.state.position = tuple(float(v) for v in (np.array(o.state.position) + d))
